@@ -1,4 +1,4 @@
-\* C08 quick: every scenario with at most 2 mutators in total over the full alphabet
+\* C08 quick: every scenario with at most 2 mutators in total, one representative per mutator class
 CONSTANTS
   MaxPre = 1
   MaxChild = 2
@@ -7,7 +7,7 @@ CONSTANTS
   MinPre = 0
   MinTotal = 0
   Leaky = FALSE
-  Alphabet <- AllCmds
+  Alphabet <- CoreCmds
   Kinds <- AllKinds
 INIT Init
 NEXT Next
